@@ -5,12 +5,15 @@ import (
 	"encoding/json"
 	"flag"
 	"fmt"
+	"go/ast"
+	"go/parser"
 	"go/token"
 	"go/types"
 	"os"
 	"os/exec"
 	"path/filepath"
 	"sort"
+	"strconv"
 	"strings"
 	"sync"
 	"sync/atomic"
@@ -79,16 +82,17 @@ type OblResult struct {
 }
 
 type RunResult struct {
-	Prop          string         `json:"prop"`
-	Tier          string         `json:"tier"`
-	Units         []*UnitResult  `json:"units"`
-	SpecErrors    []string       `json:"spec_errors,omitempty"`
-	EachSolver    map[string]int `json:"each_solver,omitempty"`
-	ContractFiles []string       `json:"contract_files"`
-	Overlaid      []string       `json:"contracts_overlaid,omitempty"`
-	LoadMs        int64          `json:"load_ms"`
-	WallMs        int64          `json:"wall_ms"`
-	LoadErrors    []string       `json:"load_errors,omitempty"`
+	Prop             string         `json:"prop"`
+	Tier             string         `json:"tier"`
+	Units            []*UnitResult  `json:"units"`
+	SpecErrors       []string       `json:"spec_errors,omitempty"`
+	EachSolver       map[string]int `json:"each_solver,omitempty"`
+	ContractFiles    []string       `json:"contract_files"`
+	Overlaid         []string       `json:"contracts_overlaid,omitempty"`
+	LoadMs           int64          `json:"load_ms"`
+	WallMs           int64          `json:"wall_ms"`
+	LoadErrors       []string       `json:"load_errors,omitempty"`
+	DroppedContracts []string       `json:"dropped_contracts,omitempty"`
 }
 
 var extContractPkgs = map[string]bool{}
@@ -196,13 +200,67 @@ func realMain() int {
 		fmt.Fprintln(os.Stderr, "load:", err)
 		return 2
 	}
-	packages.Visit(pkgs, nil, func(p *packages.Package) {
-		if strings.HasPrefix(p.PkgPath, frpPrefix) {
-			for _, e := range p.Errors {
-				res.LoadErrors = append(res.LoadErrors, e.Error())
+	collect := func() []packages.Error {
+		var errs []packages.Error
+		packages.Visit(pkgs, nil, func(p *packages.Package) {
+			if strings.HasPrefix(p.PkgPath, frpPrefix) {
+				errs = append(errs, p.Errors...)
+			}
+		})
+		return errs
+	}
+	// A contract function that no longer type-checks against the code it
+	// specifies (the target's signature changed, a field it names is gone): the
+	// code itself compiles, so this is not a broken tree. Such contract
+	// functions are dropped (their obligations "can no longer be generated",
+	// which the lock file turns into a violation of exactly those obligations)
+	// and everything else is verified as usual.
+	for round := 0; round < 4; round++ {
+		errs := collect()
+		if len(errs) == 0 {
+			break
+		}
+		changed := false
+		onlyContracts := true
+		for _, e := range errs {
+			if file, _ := errPos(e.Pos); filepath.Base(file) != "zz_contracts_verif.go" {
+				onlyContracts = false
 			}
 		}
-	})
+		if !onlyContracts {
+			break // the code itself does not compile: a broken tree
+		}
+		for _, e := range errs {
+			file, line := errPos(e.Pos)
+			src, ok := overlay[file]
+			if !ok {
+				src, _ = os.ReadFile(file)
+			}
+			ns, name, ok := dropContractAt(src, line, e.Msg)
+			if !ok {
+				continue
+			}
+			overlay[file] = ns
+			changed = true
+			if name != "" {
+				res.DroppedContracts = append(res.DroppedContracts, fmt.Sprintf("%s (%s): %s", name, strings.TrimPrefix(file, *flagRepo+"/"), e.Msg))
+				fmt.Fprintf(os.Stderr, "contract function %s no longer type-checks against the code and is dropped: %s\n", name, e.Msg)
+			}
+			break // line numbers of this file changed: reload before the next repair
+		}
+		if !changed {
+			break
+		}
+		cfg.Overlay = overlay
+		pkgs, err = packages.Load(cfg, patterns...)
+		if err != nil {
+			fmt.Fprintln(os.Stderr, "load:", err)
+			return 2
+		}
+	}
+	for _, e := range collect() {
+		res.LoadErrors = append(res.LoadErrors, e.Error())
+	}
 	if len(res.LoadErrors) > 0 {
 		for _, e := range res.LoadErrors {
 			fmt.Fprintln(os.Stderr, "load error:", e)
@@ -301,6 +359,7 @@ func realMain() int {
 		}
 	}
 	closable := map[string]bool{}
+	closeSites = map[string][]string{}
 	for _, fn := range allFns {
 		if !strings.HasPrefix(pkgPathOf(fn), frpPrefix) {
 			continue
@@ -340,6 +399,7 @@ func realMain() int {
 							if fa, isFA := ld.X.(*ssa.FieldAddr); isFA {
 								pt := fa.X.Type().Underlying().(*types.Pointer).Elem()
 								closable["field:"+fieldArrayName(pt, fa.Field)] = true
+								closeSites[fieldArrayName(pt, fa.Field)] = append(closeSites[fieldArrayName(pt, fa.Field)], fn.String())
 								continue
 							}
 						}
@@ -499,6 +559,30 @@ func realMain() int {
 			if u.con.Target != nil && !u.con.Lemma && strings.HasPrefix(pkgPathOf(u.con.Target), frpPrefix) {
 				x.checkGoShare(u.con.Target)
 			}
+		} else if u.nb != nil && u.nb.CloseField != "" {
+			// closed-only-by: every close of this field's channel in the loaded frp
+			// packages lies in one of the named functions (one closer: a second
+			// close site is a "close of closed channel" waiting for its schedule)
+			x.unit = "closers:" + u.nb.CloseField
+			ur.Name = x.unit
+			ur.Kind = "structural"
+			ur.Target = u.nb.CloseField
+			ur.Props = u.nb.Props
+			var foreign []string
+			for _, site := range closeSites[u.nb.CloseField] {
+				ok := false
+				for _, a := range u.nb.CloseBy {
+					if site == a || strings.HasPrefix(site, a+"$") {
+						ok = true
+					}
+				}
+				if !ok {
+					foreign = append(foreign, site)
+				}
+			}
+			sort.Strings(foreign)
+			x.obligeStatic(newState(), "chan."+u.nb.CloseField+".closed-only-by-its-owner", "structural", len(foreign) == 0 && len(closeSites[u.nb.CloseField]) > 0, token.NoPos, "channel also closed in: "+strings.Join(foreign, ", "))
+			finals = []*State{newState()}
 		} else if u.nb != nil {
 			x.unit = "noblock:" + x.fnShort(u.nb.Target)
 			ur.Name = x.unit
@@ -1185,4 +1269,61 @@ func deadArms(x *Run, unit string, finals []*State, obls []*Obligation) {
 	if len(deadL) > 0 {
 		fmt.Fprintf(os.Stderr, "DEADARMS %s: %s\n", unit, strings.Join(deadL, " "))
 	}
+}
+
+// errPos splits "file:line:col" of a packages.Error.
+// closeSites: per struct field holding a channel, the functions of the loaded
+// frp packages that contain a close() of it.
+var closeSites map[string][]string
+
+func errPos(pos string) (string, int) {
+	parts := strings.Split(pos, ":")
+	if len(parts) < 2 {
+		return pos, 0
+	}
+	n, _ := strconv.Atoi(parts[1])
+	return parts[0], n
+}
+
+// dropContractAt removes from a contract file the top-level function (with its
+// doc comment, i.e. its directives) that contains the given line; an import
+// that became unused is turned into a blank import. Returns the new source and
+// the name of the dropped function ("" for an import repair).
+func dropContractAt(src []byte, line int, msg string) ([]byte, string, bool) {
+	fset := token.NewFileSet()
+	f, err := parser.ParseFile(fset, "x.go", src, parser.ParseComments)
+	if err != nil {
+		return nil, "", false
+	}
+	if strings.Contains(msg, "imported and not used") {
+		for _, im := range f.Imports {
+			if fset.Position(im.Pos()).Line == line {
+				start := fset.Position(im.Pos()).Offset
+				end := fset.Position(im.End()).Offset
+				out := append([]byte{}, src[:start]...)
+				out = append(out, []byte("_ "+im.Path.Value)...)
+				out = append(out, src[end:]...)
+				return out, "", true
+			}
+		}
+		return nil, "", false
+	}
+	for _, d := range f.Decls {
+		fd, ok := d.(*ast.FuncDecl)
+		if !ok {
+			continue
+		}
+		from := fd.Pos()
+		if fd.Doc != nil {
+			from = fd.Doc.Pos()
+		}
+		if fset.Position(from).Line <= line && line <= fset.Position(fd.End()).Line {
+			start := fset.Position(from).Offset
+			end := fset.Position(fd.End()).Offset
+			out := append([]byte{}, src[:start]...)
+			out = append(out, src[end:]...)
+			return out, fd.Name.Name, true
+		}
+	}
+	return nil, "", false
 }
